@@ -1,6 +1,7 @@
 """C07 - physical results are invariant under the choice of units."""
 import copy
 import math
+import os
 
 import numpy as np
 from hypothesis import strategies as st
@@ -94,7 +95,7 @@ def twins(draw, thorough=False):
     slots += sum(twin["row_units"][k] not in ("d", "rad", None) for k in twin["row_units"])
     pair = {"base": base, "twin": twin, "n_unit_slots_changed": int(slots + prior_slots),
             "prior_slots_changed": int(prior_slots),
-            "path": draw(st.sampled_from(["mem", "mem", "cache"])),
+            "path": draw(st.sampled_from(["mem", "mem", "cache", "file"])),
             "rng_seed": draw(st.integers(0, 2**32 - 1)), "n_linear": draw(st.sampled_from([1, 2, 4]))}
     return pair
 
@@ -111,7 +112,13 @@ def body_factory(ctx):
         smp = gens.build_samples(spec)
         rows_eff = c01.effective_rows(smp, prob.data_unit)
         joker = tj.TheJoker(prior)
-        ll = np.asarray(joker.marginal_ln_likelihood(data, smp, in_memory=pair["path"] == "mem"), dtype=float)
+        if pair["path"] == "file":
+            # base and twin libraries are written under the same file name, one after the other
+            fn = os.path.join(ctx.workdir, "c07lib.hdf5")
+            smp.write(fn, overwrite=True)
+            ll = np.asarray(joker.marginal_ln_likelihood(data, fn), dtype=float)
+        else:
+            ll = np.asarray(joker.marginal_ln_likelihood(data, smp, in_memory=pair["path"] == "mem"), dtype=float)
         spec2 = dict(spec, path=pair["path"], rng_seed=pair["rng_seed"], n_linear=pair["n_linear"])
         out, calls, rg, pool = c03.run_rejection(ctx, spec2, prob, data, prior, smp)
         return dict(prob=prob, rows=rows_eff, ll=ll, out=out, calls=calls, rg=rg)
@@ -122,6 +129,32 @@ def body_factory(ctx):
         with ctx.sut("evaluating unit-transformed twin"):
             T = run_one(pair["twin"], pair)
         pb, pt = B["prob"], T["prob"]
+        if pair["path"] == "file":
+            # a file holding the base library, extended by the same rows expressed in the twin's units: either the
+            # append is refused, or the file must then hold the same physical samples twice
+            import thejoker as tj_
+            fn = os.path.join(ctx.workdir, "c07append.hdf5")
+            lb = gens.build_samples(pair["base"])
+            lt = gens.build_samples(dict(pair["twin"], rows=pair["twin"]["rows"]))
+            lb.write(fn, overwrite=True)
+            try:
+                lt.write(fn, append=True)
+                appended = True
+            except Exception:
+                appended = False
+            if appended:
+                db = gens.build_data(pair["base"])
+                pr_b = gens.build_prior(pair["base"]["prior"])
+                with ctx.sut("marginal_ln_likelihood on an appended file"):
+                    ll_file = np.asarray(tj_.TheJoker(pr_b).marginal_ln_likelihood(db, fn), dtype=float)
+                nb_ = len(B["ll"])
+                for half in (ll_file[:nb_], ll_file[nb_:]):
+                    if half.shape != B["ll"].shape or np.any(np.abs(half - B["ll"]) > 1e-6 * (1 + np.abs(B["ll"]))):
+                        raise Violation("a library appended in other (equivalent) units does not hold the same physical "
+                                        "samples", base=B["ll"][:5], from_file=half[:5])
+                ctx.classes["append in other units accepted and consistent"] += 1
+            else:
+                ctx.classes["append in other units refused"] += 1
         n = pb.n
         f = float(og.conv(1.0, pb.data_unit, pt.data_unit))  # twin data units per base data unit
         f4 = pair["twin"]["prior"]["K"]["kind"] == "fcm" and pair["twin"]["prior"]["P"]["unit"] != "d"
